@@ -4,17 +4,22 @@ open Lean EkwVerif.Drive EkwVerif.Presched
 
 /-
 One line in:  {"tasks": [[id, [output, ...]], ...],
-               "edges": [{"src":..,"out":..,"dst":..,"kw": str|null,"ps": nat|null}, ...]}
-One line out: {"error": "TypeError"} or
+               "edges": [{"src":..,"out":..,"dst":..,"kw": str|null,"ps": int|null}, ...]}
+One line out: {"error": "TypeError"} or {"error": "Enrich", "errors": ["KeyError" | "Diverges" | "FuelExhausted", ..]} or
   {"components": [{"nodes":[..],"sources":[..],"depth":n,"value":[[t,v]..],
                    "dist":[[a,[[b,d]..]]..],"paths":[[a,[[b,d]..]]..]}..],
    "edge_o": [[[t,o],[t..]]..], "edge_i": [[t,[[t,o]..]]..], "task_o": [[t,[[t,o]..]]..]}
 -/
 
-def optNat (j : Json) (k : String) : Option Nat :=
+def optInt (j : Json) (k : String) : Option Int :=
   match j.getObjVal? k with
-  | .ok (.num n) => if n.exponent == 0 && n.mantissa ≥ 0 then some n.mantissa.toNat else none
+  | .ok (.num n) => if n.exponent == 0 then some n.mantissa else none
   | _ => none
+
+def errJ : LoopErr → Json
+  | .keyError => Json.str "KeyError"
+  | .diverges => Json.str "Diverges"
+  | .fuel => Json.str "FuelExhausted"
 
 def parseTask (j : Json) : String × List String :=
   match asArr j with
@@ -23,7 +28,7 @@ def parseTask (j : Json) : String × List String :=
 
 def parseEdge (j : Json) : RawEdge String String :=
   { src := getStr j "src", out := getStr j "out", dst := getStr j "dst",
-    kw := getOptStr j "kw", ps := optNat j "ps" }
+    kw := getOptStr j "kw", ps := optInt j "ps" }
 
 def dsJ (d : String × String) : Json := Json.arr #[Json.str d.1, Json.str d.2]
 def rowJ (r : Row String) : Json := Json.arr (r.map (fun p => Json.arr #[Json.str p.1, toJson p.2])).toArray
@@ -37,9 +42,13 @@ def compJ (c : Component String) : Json :=
 def c16Step (_ : Unit) (j : Json) : Unit × Json :=
   let tasks := (getArr j "tasks").map parseTask
   let edges := (getArr j "edges").map parseEdge
-  match precomputeRaw tasks edges with
+  match precomputeRawX tasks edges with
   | none => ((), Json.mkObj [("error", Json.str "TypeError")])
   | some p =>
+    let errs := match edges.mapM RawEdge.toEdge? with
+      | some es => enrichErrors ⟨tasks, es⟩
+      | none => []
+    if !errs.isEmpty then ((), Json.mkObj [("error", Json.str "Enrich"), ("errors", Json.arr (errs.map errJ).toArray)]) else
     ((), Json.mkObj [
       ("components", Json.arr (p.components.map compJ).toArray),
       ("edge_o", Json.arr (p.edge_o.map (fun e => Json.arr #[dsJ e.1, strs e.2])).toArray),
